@@ -15,7 +15,11 @@
 EXTENDS CfbTree, Json, IOUtils, TLCExt
 
 Rec    == ndJsonDeserialize(IOEnv.TRACE)
-DictIn == JsonDeserialize(IOEnv.DICT)
+\* TLC evaluates a definition that the configuration substitutes for a constant again at EVERY use, but caches
+\* an ordinary constant definition; the file is therefore read by DictFile (once) and DictIn only refers to it
+\* (the Json module also leaks one file descriptor per read)
+DictFile == JsonDeserialize(IOEnv.DICT)
+DictIn == DictFile
 
 PLess(a, b) == Known(a) /\ Known(b) /\ KeyLess(Units(a), Units(b))
 PEq(a, b)   == (a = b) \/ (Known(a) /\ Known(b) /\ Units(a) = Units(b))
